@@ -57,6 +57,34 @@ def components(nodes, edge):
     return sorted(map(sorted, comps.values()))
 
 
+
+def forest_certificate(n, adj, lab):
+    """spanning forest of the label classes: parent pointers and ranks (BFS order) for the Lean checker compOkb"""
+    par = list(range(n))
+    rank = [0] * n
+    seen = set()
+    for root in range(n):
+        if root in seen or any(lab[x] == lab[root] for x in seen):
+            # a second root inside a class that was already searched: the labelling is not a component labelling,
+            # the certificate then has two roots with one label and the checker rejects it
+            if root not in seen:
+                seen.add(root)
+            continue
+        seen.add(root)
+        queue = [root]
+        r = 0
+        while queue:
+            x = queue.pop(0)
+            for y in range(n):
+                if y not in seen and lab[y] == lab[root] and (adj(x, y) or adj(y, x)):
+                    seen.add(y)
+                    par[y] = x
+                    r += 1
+                    rank[y] = r
+                    queue.append(y)
+    return par, rank
+
+
 def run(chk):
     from lingpy.compare.partial import Partial
     chk.rule = ('generated morpheme-segmented wordlists (1-4 morphemes per word, repeated morphemes inside a word, synonyms, gaps, '
@@ -66,6 +94,8 @@ def run(chk):
     rng = chk.rng
     drv = common.Driver()
     bad, fails = [], []
+    bad_cert = []
+    ncert = {'loose': 0, 'pp': 0}
     n = chk.n(300, 4000)
     for it in range(n):
         d = gen_partial_wordlist(rng)
@@ -122,6 +152,20 @@ def run(chk):
             if sorted(map(sorted, got.values())) != sorted(exp):
                 e = 'loose ids are not the per-concept components of "shares a partial id"'
             if not e:
+                # 'loose' derivation: every concept's ids must be accepted by the Lean certificate checker (theorem C16_loose_of_observed)
+                koff = 0
+                for c in part.rows:
+                    idxs = [int(x) for x in part.get_list(row=c, flat=True)]
+                    idl = [pids[k] for k in idxs]
+                    lab = [lo[k] for k in idxs]
+                    par, rank = forest_certificate(len(idxs), lambda a, b: bool(set(idl[a]) & set(idl[b])), lab)
+                    o = drv.ask('looseok|%d|%s|%s|%s|%s' % (koff, ' '.join(','.join(map(str, x)) for x in idl), ' '.join(map(str, lab)),
+                                                          ' '.join(map(str, par)), ' '.join(map(str, rank))))
+                    ncert['loose'] += 1
+                    if o != 'ok':
+                        bad_cert.append(('loose', d, c, idl, lab))
+                    koff += len(set(lab))
+            if not e:
                 # strict derivation vs Lean model (ids as a partition with first-occurrence numbering)
                 rows = ' '.join('%d:%s' % (k, ','.join(map(str, pids[k]))) for k in part._data)
                 o = drv.ask('strict|' + rows)
@@ -131,6 +175,25 @@ def run(chk):
         if e:
             fails.append((d, link, t, pp, e))
             continue
+        if pp:
+            # post-processing: the new ids must be accepted by the Lean checker ppOkb against the surviving graph the code keeps
+            from lingpy.algorithm import clustering
+            koff = 0
+            for c, tr, m in mats:
+                labels = clustering.flat_cluster(link, t, [list(r) for r in m], revert=True)
+                word = [x[0] for x in tr]
+                old_ids = [labels[i] + koff for i in range(len(tr))]
+                new_ids = [pids[x[0]][x[1]] for x in tr]
+                g = part.graphs[c]
+                edges = [(a[0], b[0]) for a, b in g.edges()]
+                es = set(edges) | set((b, a) for a, b in edges)
+                par, rank = forest_certificate(len(tr), lambda a, b: (a, b) in es, new_ids)
+                o = drv.ask('ppok|%d|%s|%s|%s|%s|%s|%s' % (koff, ' '.join(map(str, word)), ' '.join(map(str, old_ids)), ' '.join(map(str, new_ids)),
+                                                         ' '.join('%d,%d' % x for x in edges), ' '.join(map(str, par)), ' '.join(map(str, rank))))
+                ncert['pp'] += 1
+                if o != 'ok':
+                    bad_cert.append(('post-processing', d, c, word, old_ids, new_ids, edges))
+                koff += len(m) + 1
         if not pp:
             parts = []
             from lingpy.algorithm import clustering
@@ -150,8 +213,11 @@ def run(chk):
                 bad.append(('pglue', d, pids, model))
     drv.close()
     chk.sample({'partial_ids': {str(k): v for k, v in list(pids.items())[:6]}}, limit=2)
-    chk.tested_not_proved.append('uniqueness of ids within a word after post-processing and the loose (connected-component) derivation are '
-                                 'tested by the oracle; networkx connected_components is assumed')
+    chk.tested_not_proved.append('networkx connected_components is not modelled: every observed labelling (loose ids per concept, post-processed partial ids '
+                                 'per concept) is checked by the Lean certificate checker, whose soundness is proved (compOk_sound)')
+    chk.obligation('correspondence:observed loose ids and post-processed partial ids are accepted by the Lean certificate checkers looseOkb / ppOkb '
+                   '(hypotheses of C16_loose_of_observed / C16_pp_unique)', 'correspondence', not bad_cert,
+                   'concepts checked: loose=%d post-processing=%d rejected=%d %s' % (ncert['loose'], ncert['pp'], len(bad_cert), str(bad_cert[0])[:300] if bad_cert else ''))
     chk.obligation('correspondence:partial-id column (post-processing off) == Lean pglue(flatCluster(morpheme matrices)); strict ids == strictIds',
                    'correspondence', not bad, 'wordlists=%d mismatches=%d %s' % (n, len(bad), str(bad[0])[:300] if bad else ''))
     chk.obligation('oracle:C16 statement', 'correspondence', not fails, 'failures=%d' % len(fails))
@@ -159,6 +225,9 @@ def run(chk):
     for f in fails[:2]:
         chk.violation('partial_cluster(%s, t=%r, post_processing=%r): %s' % (f[1], f[2], f[3], f[4]),
                       {'kind': 'partial', 'dict': {str(k): v for k, v in f[0].items()}, 'link': f[1], 'threshold': f[2], 'post_processing': f[3], 'why': f[4]})
+    if bad_cert and not fails:
+        chk.violation('an observed component labelling is rejected by the Lean checker (%s); oracle found no failing input' % bad_cert[0][0],
+                      {'kind': 'partial-certificate', 'detail': str(bad_cert[0])[:2000], 'broken': 'correspondence:certificate checkers'}, found_input=False)
     if bad and not fails:
         chk.violation('partial ids differ from the model; oracle found no failing input',
                       {'kind': 'partial-model', 'detail': str(bad[0])[:2000], 'broken': 'correspondence:partial-id column'}, found_input=False)
